@@ -383,6 +383,23 @@ class Fn:
         if d == "str":
             return simple("py_strv (m_repr M)", 1)
         if d == "dict":
+            z = args[0] if nargs == 1 and not kws else None
+            if isinstance(z, ast.Call) and dotted(z.func) == "zip" and len(z.args) == 2 and not z.keywords \
+                    and isinstance(z.args[1], ast.GeneratorExp):
+                # dict(zip(A, (f(o) for o in B))): zip consumes the generator lazily, pair by pair
+                ge = z.args[1]
+                if len(ge.generators) != 1 or ge.generators[0].ifs or ge.generators[0].is_async \
+                        or not isinstance(ge.generators[0].target, ast.Name):
+                    self.fail(n, "generator shape inside dict(zip(...))")
+                x = ge.generators[0].target.id
+                saved = set(self.locals)
+
+                def lazy(vs):
+                    self.locals.add(x)
+                    body = self.ev(ge.elt, lambda v: f"(Ok {v})")
+                    self.locals = saved
+                    return f"(dict_zip_lazy (fun v_{x} => {body}) {vs[0]} {vs[1]})"
+                return self.evs([z.args[0], ge.generators[0].iter], lazy)
             if nargs == 1 and isinstance(args[0], ast.GeneratorExp):
                 return self.mkbind(self.comp(args[0], 'comp'), lambda x: f"(py_dict {x})")
             return simple("py_dict", 1)
